@@ -89,6 +89,16 @@ func specEqual(a, b ech.ConfigSpec) bool {
 	return true
 }
 
+func nameClass(n string) string {
+	switch {
+	case strings.Trim(n, ".") == "":
+		return "only-dots"
+	case strings.HasSuffix(n, "."):
+		return "trailing-dot"
+	}
+	return "other"
+}
+
 func guard(r *ev.Run, key string, replay any, f func()) {
 	defer func() {
 		if p := recover(); p != nil {
@@ -99,7 +109,7 @@ func guard(r *ev.Run, key string, replay any, f func()) {
 }
 
 func Run(r *ev.Run) {
-	r.Rule("E1 exhaustive product: config id x public-name length x ordered cipher-suite list x key length for ConfigSpec.Bytes; ids x names for NewConfig; lists of 0..3 configs; every prefix / field-level truncation / byte substitution of valid encodings for the parser; crypto/tls client+server and ech.NewConn acceptance per (id class, name-length class, suite list). distinct = distinct encoded byte strings / distinct parser inputs")
+	r.Rule("E1 exhaustive product: config id x public-name length x ordered cipher-suite list x key length for ConfigSpec.Bytes; ids x names for NewConfig; lists of 0..3 configs and lists of 100..400 maximal configs (up to exactly the 65535-byte limit, and beyond it: an error is required); names with a trailing dot / only dots / upper case at codec level; every prefix / field-level truncation / byte substitution of valid encodings for the parser; crypto/tls client+server and ech.NewConn acceptance per (id class, name-length class, suite list). distinct = distinct encoded byte strings / distinct parser inputs")
 	r.Assume("tlsref (independent codec written from draft-ietf-tls-esni §4) and crypto/tls are correct", "public names fed to crypto/tls are valid LDH DNS names (the draft admits no others)")
 	sl := suiteLists()
 	pub := hpkeref.DetKey("c11").PublicKey().Bytes()
@@ -181,6 +191,23 @@ func Run(r *ev.Run) {
 			r.Violation(fmt.Sprintf("encode-rawname:%d", nl), "raw-byte public name not encoded per §4", nil)
 		}
 		r.Eval(string(got), "ok-rawname")
+	}
+	// names that end in a dot (fully-qualified spelling), consist of dots, or carry upper case: the codec is byte-exact
+	for _, name := range []string{"a.example.", ".", "..", "x.", dnsName(254) + ".", "A.Example", " a", "a\x00b"} {
+		spec := ech.ConfigSpec{Version: 0xfe0d, ID: 9, KEM: 0x20, PublicKey: pub, CipherSuites: sl[0], PublicName: []byte(name)}
+		got, err := spec.Bytes()
+		want := tlsref.BuildConfig(9, pub, refSuites(sl[0]), name)
+		if err != nil || !bytes.Equal(got, want) {
+			r.Violation("encode-rawname:"+nameClass(name), fmt.Sprintf("public name %q not encoded per §4 (err=%v):\n got  %x\n want %x", name, err, got, want), name)
+		} else if back, err := ech.Config(got).Spec(); err != nil || string(back.PublicName) != name {
+			r.Violation("roundtrip-rawname:"+nameClass(name), fmt.Sprintf("public name %q parses back as %q (%v)", name, back.PublicName, err), name)
+		}
+		if _, cfg, err := ech.NewConfig(3, []byte(name)); err != nil {
+			r.Violation("newconfig-rawname:"+nameClass(name), fmt.Sprintf("NewConfig(%q): %v", name, err), name)
+		} else if info, _, err := tlsref.ParseConfig(cfg); err != nil || string(info.PublicName) != name || int(info.MaxNameLen) != min(len(name)+16, 255) {
+			r.Violation("newconfig-rawname:"+nameClass(name), fmt.Sprintf("NewConfig(%q) encodes public name %q, maximum_name_length %d (%v)", name, info.PublicName, info.MaxNameLen, err), name)
+		}
+		r.Eval("rawname:"+name, "ok-rawname")
 	}
 	for _, nl := range []int{0, 256, 300} {
 		spec := ech.ConfigSpec{Version: 0xfe0d, ID: 9, KEM: 0x20, PublicKey: pub, CipherSuites: sl[0], PublicName: make([]byte, nl)}
@@ -280,6 +307,44 @@ func Run(r *ev.Run) {
 			r.Eval(string(got), "ok-list")
 		})
 	})
+
+	// ---- 3b. lists near and beyond what the 16-bit length prefix can hold: exact encoding below, an error above ----
+	{
+		big := mk(7, dnsName(255), sl[len(sl)-1])
+		small := mk(8, "a.bc", sl[0])
+		for _, n := range []int{100, 150, 200, 250, 400} {
+			var cfgs []ech.Config
+			var body []byte
+			for i := 0; i < n; i++ {
+				cfgs = append(cfgs, big)
+				body = append(body, big...)
+			}
+			// top up with small configs to come as close to 65535 as possible when below it
+			for len(body) < 65535 && len(body)+len(small) <= 65535 && n == 150 {
+				cfgs = append(cfgs, small)
+				body = append(body, small...)
+			}
+			guard(r, fmt.Sprint("biglist:", n), n, func() {
+				got, err := ech.ConfigList(cfgs)
+				switch {
+				case len(body) <= 65535:
+					want := append([]byte{byte(len(body) >> 8), byte(len(body))}, body...)
+					if err != nil || !bytes.Equal(got, want) {
+						r.Violation("list-bytes:big", fmt.Sprintf("ConfigList of %d configs (%d bytes) is not the length-prefixed concatenation (err=%v, %d bytes)", len(cfgs), len(body), err, len(got)), n)
+					} else if specs, err := ech.ParseConfigList(got); err != nil || len(specs) != len(cfgs) {
+						r.Violation("list-parse:big", fmt.Sprintf("ParseConfigList: %v n=%d", err, len(specs)), n)
+					}
+					r.Eval(fmt.Sprint("biglist", n), "ok-list")
+				default:
+					if err == nil {
+						_, perr := tlsref.ParseConfigList(got)
+						r.Violation("list-overflow-not-reported", fmt.Sprintf("ConfigList of %d configs totalling %d bytes (more than a 16-bit length can express) returned %d bytes and no error; its length prefix says %d; the independent parser says: %v", len(cfgs), len(body), len(got), int(got[0])<<8|int(got[1]), perr), n)
+					}
+					r.Eval(fmt.Sprint("biglist", n), "rejected-length")
+				}
+			})
+		}
+	}
 
 	// ---- 4. parser robustness: truncations, substitutions, garbage ----
 	list3, _ := ech.ConfigList(poolCfg[:3])
